@@ -91,6 +91,10 @@ func main() {
 		modeStmt(*seed, *n, *threads, *procs)
 	case "sized":
 		modeSized(*seed, *n, *threads, *procs)
+	case "construct":
+		modeConstruct(*seed, *n)
+	case "pairidx":
+		modePairIdx(*seed, *n)
 	case "replay":
 		switch *variant {
 		case "":
